@@ -160,7 +160,7 @@ def finish(ctx, min_events=1):
 def run_driver(exe, input_text=None, args=(), env=None, timeout=600, check=False):
     """returns (returncode, stdout, stderr)"""
     e = dict(os.environ)
-    e.setdefault('ASAN_OPTIONS', 'abort_on_error=0:detect_leaks=0:exitcode=99:allocator_may_return_null=1')
+    e.setdefault('ASAN_OPTIONS', 'abort_on_error=0:detect_leaks=0:exitcode=99:allocator_may_return_null=1:detect_stack_use_after_return=1')
     e.setdefault('UBSAN_OPTIONS', 'print_stacktrace=1:halt_on_error=1:exitcode=98')
     e.setdefault('MSAN_OPTIONS', 'exitcode=97:halt_on_error=1')     # (the default exit code 77 is what the guard-page drivers use)
     e.setdefault('TSAN_OPTIONS', 'halt_on_error=0:exitcode=97:second_deadlock_stack=1')
